@@ -128,7 +128,7 @@ def _classify_return(fn, v, params):
     binds = _local_bindings(fn)
     if isinstance(v, ast.IfExp) and isinstance(v.orelse, ast.Name):
         name = v.orelse.id
-        if (_u(v.test) == f"{name}.dtype.hasobject" and _u(v.body) == f"copy.deepcopy({name})"
+        if (_u(v.test) == f"{name}.dtype.hasobject" and _u(v.body) in (f"copy.deepcopy({name})", f"_deepcopy_array({name})")
                 and name in binds and all(isinstance(b, ast.Call) and _u(b.func) in ("np.array", "np.concatenate") for b in binds[name])):
             return "stack"
     if isinstance(v, ast.Name) and v.id in params:
@@ -251,6 +251,11 @@ def extract():
         else:
             rules.append(("raw", _u(st)))
     t["ensureCopyRules"] = rules
+    # the module-level deep-copy walker, statement by statement (docstring dropped); [] when the module has none
+    dca = next((n for n in sm.body if isinstance(n, ast.FunctionDef) and n.name == "_deepcopy_array"), None)
+    t["deepcopyArrayDef"] = ([] if dca is None else
+                             ["(" + ", ".join(a.arg for a in dca.args.args) + ")"] +
+                             [_u(st) for st in dca.body if not (isinstance(st, ast.Expr) and isinstance(st.value, ast.Constant))])
     # returns and stores
     rets, stores = [], []
     for f in methods:
@@ -309,7 +314,7 @@ def extract():
 
 
 def _s(x):
-    return '"' + x.replace("\\", "\\\\").replace('"', '\\"') + '"'
+    return '"' + x.replace("\\", "\\\\").replace('"', '\\"').replace("\n", "\\n") + '"'
 
 
 def render(t):
@@ -317,6 +322,7 @@ def render(t):
          "namespace Gen.SMSites", ""]
     L.append("def publicMethods : List String := [" + ", ".join(_s(x) for x in t["publicMethods"]) + "]")
     L.append("def ensureCopyRules : List (String × String) := [" + ", ".join(f"({_s(a)}, {_s(b)})" for a, b in t["ensureCopyRules"]) + "]")
+    L.append("def deepcopyArrayDef : List String := [" + ", ".join(_s(x) for x in t["deepcopyArrayDef"]) + "]")
     L.append("def accessorReturns : List (String × String) := [" + ", ".join(f"({_s(a)}, {_s(b)})" for a, b in t["accessorReturns"]) + "]")
     L.append("def stores : List (String × String) := [" + ", ".join(f"({_s(a)}, {_s(b)})" for a, b in t["stores"]) + "]")
     L.append("def pipelineCalls : List (String × String × String × String) := ["
